@@ -17,7 +17,7 @@ CHECKS = {
              "fresh instance returns. The real binary is also run with permuted / split package arguments.",
         design_ref="DESIGN.md section 6 C03, section 11",
         note="Reference = fresh instance of the same code built in the other legal construction order. Bounded by the example corpus "
-             "(216 files) and the sampled predecessor files in the quick tier; not all Go programs.",
+             "(216 files) and the sampled predecessor files in the quick tier; not all Go programs. The adversarial packages are also analysed in package order and in shuffled orders by one long-lived set (same-named function-local types across files, import-less files after files with imports).",
         technique="TLA+ model (TLC exhaustive) + trace validation of recorded executions + replay of TLC behaviours",
         engine="lifecycle",
     ),
@@ -32,7 +32,7 @@ CHECKS.update({
              "files, programs enumerated by Scopes.tla (namesakes of builtins / std packages, unusual call shapes), and in the thorough "
              "tier all of std and the repository, at the default, minimal, unit and maximal parameter corners.",
         design_ref="DESIGN.md section 6 C01",
-        note="Bounded program grammar + corpora, not all Go programs; hangs are detected by a 60 s per-Check deadline.",
+        note="Bounded program grammar + corpora, not all Go programs; hangs are detected by a 60 s per-Check deadline. Corpus also holds forwarded call results f(g()), body-less functions, cyclic embedded pointers, 128 KiB constants and patterns regexp rejects; an unrecoverable crash of the in-process harness is attributed to the checker on the stack and the run repeated without it.",
         technique="trace validation against the TLA+ lifecycle model over corpora and spec-enumerated programs",
         engine="lifecycle"),
     "C05": dict(
@@ -45,7 +45,7 @@ CHECKS.update({
              "any event with fpSame = FALSE or got # fresh.",
         design_ref="DESIGN.md section 6 C05",
         note="Example files in the quick tier (own checker + rewriting group + sampled others per file, both orders); std sample and "
-             "repository in the thorough tier.",
+             "repository in the thorough tier. The 'min' parameter corner runs on a context with 386 sizes so that an overwritten SizesInfo is visible in the fingerprint.",
         technique="TLA+ frame condition + fingerprint-carrying trace validation",
         engine="lifecycle"),
     "C06": dict(
@@ -86,7 +86,7 @@ CHECKS.update({
              "freedom of the real thing: race-detector builds of the binary (more tokens than checkers, no recorder) and of the "
              "analyzer under the x/tools driver with parallel passes, repeated.",
         design_ref="DESIGN.md section 6 C04, Appendix A.6, A.3",
-        note="Hooks add no synchronisation when no recorder is installed; race freedom rests on the detector's window and on C05.",
+        note="Hooks add no synchronisation when no recorder is installed; race freedom rests on the detector's window and on C05. FanOut and Analyzer also carry liveness properties (LiveSpec: Terminates, EveryFilePrinted, AllReturn) with their own what-ifs; badCond's reversed loops are always in the race workspace.",
         technique="TLC over all interleavings + trace validation of recorded concurrent runs + race detector",
         engine="fanout"),
     "C08": dict(
@@ -98,7 +98,7 @@ CHECKS.update({
              "(file, line, col, checker, message) multisets must be equal, each line once; quick fixes of the analyzer are compared "
              "with the linter's.",
         design_ref="DESIGN.md section 6 C08",
-        note="Equivalent configuration = Selection!Translatable; workspaces are built from example files.",
+        note="Equivalent configuration = Selection!Translatable; workspaces are built from example files. One configuration uses user ruleguard rules whose filters depend on the package of the analysed file; declaration-less files with reportable comments are in the workspace.",
         technique="TLA+ registration model + differential replay on the four real binaries",
         engine="frontends"),
     "C19": dict(
@@ -173,7 +173,7 @@ CHECKS.update({
              "func / type / body-less func / comment before chunks, appended unrelated code, unrelated code re-using the file's type "
              "names; every variant is re-type-checked and analysed by the real checker and must match its expectations exactly.",
         design_ref="DESIGN.md section 6 C13",
-        note="Only plain functions move; 2 example directories have no registered checker (reported as uncovered).",
+        note="Only plain functions move; 2 example directories have no registered checker (reported as uncovered). Guest schemas move the plain functions of the sibling example file (positive <-> negative, identical import table) between the target's declarations.",
         technique="TLC over abstract files and transformations + metamorphic replay on the curated examples",
         engine="locality"),
     "C14": dict(
@@ -186,7 +186,7 @@ CHECKS.update({
              "predictions and with each other; boolean parameters must change the outcome on discriminating constructs on every "
              "path; byte sizes quoted in messages are compared with types.Sizes (incl. same-named local types of different size).",
         design_ref="DESIGN.md section 6 C14",
-        note="ifElseChain / commentedOutCode: only monotone single-step behaviour is required; skipTestFuncs parameters uncovered.",
+        note="ifElseChain / commentedOutCode: only monotone single-step behaviour is required; skipTestFuncs parameters uncovered. Every measured construct must be reported at most once, and the sets of reported lines at neighbouring thresholds must be nested.",
         technique="TLA+ flow model + threshold table replayed on the three entry paths",
         engine="params"),
     "C17": dict(
@@ -276,17 +276,19 @@ CHECKS.update({
     "C11": dict(
         category="model_checking",
         text="Regex.tla models regular-expression ASTs as the quasilyte parser sees them (chars, dot, three kinds of escapes, octal "
-             "escapes, classes with ranges / posix items / negation, groups, numbered and named captures, greedy and lazy quantifiers, "
-             "{m,n} repeats, concatenation, alternation incl. empty alternatives), leftmost-first matching with capture vectors, and a "
-             "transcription of regexpSimplify's rewrite actions, their context guards, the read-back of printed class bodies and brace "
-             "repeats, and the two-pass driver. SameLanguage holds with the guards of the repaired tree plus the leftmost-first guard "
-             "on prefix factoring; each of five what-ifs (one guard off) refutes it. All enumerated ASTs (11 530 quick; level 2 in the "
-             "thorough tier) are printed into regexp.MustCompile(...) calls; the real checker analyses them (fresh instance per file, "
-             "sequentially and, race-instrumented, with all files concurrently); Go's regexp judges every real suggestion (compiles, "
-             "NumSubexp, SubexpNames, FindStringSubmatchIndex on all subjects up to length 4 over the pattern's alphabet plus a foreign "
-             "char) and validates the module's matcher on 340 000 exported Find results (a disagreement makes the run undecided). The "
-             "model predicts the real output on every enumerated pattern (drift is reported, never a verdict); violations are "
-             "classified by the rewrite actions the model applied.",
+             "escapes, classes with ranges / posix items / negation, non-capturing, flag, numbered and named groups, greedy and lazy "
+             "quantifiers, {m,n} repeats, concatenation, alternation incl. empty alternatives), leftmost-first matching with capture "
+             "vectors, and a transcription of regexpSimplify's rewrite actions with eleven context guards, the read-back of printed "
+             "class bodies / brace repeats / octal+digit, and the two-pass driver. SameLanguage holds with the guards of the repaired "
+             "tree plus two that the code lacks (leftmost-first prefix factoring, brace text); each of ten what-ifs (one guard off) "
+             "refutes it. Enumeration: level 1 (12 700 terms), level 2 in 14 context slices (thorough), and pseudo-random deeper terms "
+             "derived from integer seeds chosen by VERIF_SEED (level 3). All terms are printed into regexp.MustCompile(...) calls; the "
+             "real checker analyses them (fresh instance per file, sequentially and, race-instrumented, with all files concurrently; "
+             "long patterns with a common head share one instance); Go's regexp judges every real suggestion (compiles, NumSubexp, "
+             "SubexpNames, FindStringSubmatchIndex on all short subjects over the alphabet of the pattern and of its rewrite, on a "
+             "shortest match exported by the model and on its one-symbol variations) and validates the module's matcher on 377 000 "
+             "exported Find results (a disagreement makes the run undecided). The model predicts the real output on every enumerated "
+             "pattern (drift is reported, never a verdict); violations are classified by context tag and rewrite actions.",
         design_ref="DESIGN.md section 6 C11, Appendix A.13",
         note="Bounded ASTs over a 17-symbol alphabet; flags, anchors, Unicode classes, \\Q..\\E and repeats of nullable operands are "
              "not enumerated. Two known findings (prefix factoring asserted by the repository's tests; {1} after an octal escape).",
